@@ -85,7 +85,7 @@ def vfiles():
 
 # translation obligations: definitions regenerated from /repo's source on every run (harness/translate.py) and proved equal to
 # the model by conversion; a property lists the generated files its theorems lean on
-TRANSLATED = {"C05": ["NAdvanceGen"], "C13": ["NAdvanceGen"], "C17": ["NAdvanceGen"], "C10": ["FinalizeGen"], "C18": ["ActValGen"], "C11": ["ObserversGen"]}
+TRANSLATED = {"C05": ["NAdvanceGen"], "C13": ["NAdvanceGen"], "C17": ["NAdvanceGen"], "C10": ["FinalizeGen"], "C18": ["ActValGen"], "C11": ["ObserversGen"], "C01": ["BasicGen"], "C02": ["BasicGen"], "C03": ["BasicGen"], "C04": ["BasicGen"], "C08": ["BasicGen"], "C09": ["BasicGen"], "C12": ["BasicGen"]}
 
 
 def translation_layer(pid, res):
